@@ -399,3 +399,33 @@ func (p *Program) eachOwnedInstr(fn *ssa.Function, visit func(in *ssa.Function, 
 	}
 	rec(fn, func(v ssa.Value) ssa.Value { return v }, 0)
 }
+
+// goBodiesOf lists the functions that parent starts as goroutines: its closures and the
+// named functions / methods that are the operand of a go statement in it. Rules identify
+// "the receive goroutine", "the rotation goroutine" among them by what they do, not by
+// their position (a closure index changes when another closure becomes a method).
+func goBodiesOf(parent *ssa.Function) []*ssa.Function {
+	var out []*ssa.Function
+	seen := map[*ssa.Function]bool{}
+	eachInstr(parent, func(ins ssa.Instruction) {
+		g, ok := ins.(*ssa.Go)
+		if !ok {
+			return
+		}
+		var f *ssa.Function
+		switch v := g.Call.Value.(type) {
+		case *ssa.MakeClosure:
+			f, _ = v.Fn.(*ssa.Function)
+		case *ssa.Function:
+			f = v
+		}
+		if f == nil {
+			f = staticCallee(&g.Call)
+		}
+		if f != nil && !seen[f] {
+			seen[f] = true
+			out = append(out, f)
+		}
+	})
+	return out
+}
